@@ -54,10 +54,11 @@ VARIABLES
   dSer, dIdx,           \* durable: names whose series exists / whose index entries (metric, forward, inverted) exist
   mSer, mIdx, iSer, iIdx,  \* the same in the mutable and in the immutable (being flushed) stores of the shard index
   idxPhase,             \* "idle" | "prepared" | "half": progress of one index flush
+  badIdx,               \* ghost: keys whose index entries survived a crash that their dictionary entry did not survive
   \* ---- ghost ----
   pendAck               \* a committed flush whose ack callback has not run yet
 
-ixvars == <<dSer, dIdx, mSer, mIdx, iSer, iIdx, idxPhase>>
+ixvars == <<dSer, dIdx, mSer, mIdx, iSer, iIdx, idxPhase, badIdx>>
 vars == <<wal, gAck, qAck, dDict, dCounter, dFiles, dSeq, up, gCons, fSeq, mDict, mCounter, mem, imm, immSeq, gen, ifl, pendAck, ixvars>>
 
 Empty == [n \in {} |-> 0]
@@ -65,18 +66,20 @@ Merge(f, g) == [n \in (DOMAIN f) \cup (DOMAIN g) |-> IF n \in DOMAIN f THEN f[n]
 AllDict == Merge(dDict, mDict)
 AckTo(s, c, a) == IF s >= a /\ s <= c THEN s ELSE a
 NoIfl == [seq |-> -1, st |-> "none", ok |-> FALSE]
-\* GenSeriesID: a name whose series is unknown (in no store of the series family) gets a series AND its index
-\* entries (metric inverted, forward, inverted index); a known series is not indexed again
+\* GenSeriesID: the series of a row is looked up by (metric ID, tags hash) -- the tags are the same for every
+\* entry here, so the key is the metric id.  An unknown key (in no store of the series family) gets a series AND
+\* its index entries (metric inverted, forward, inverted index); a known series is not indexed again
 AllSer == dSer \cup iSer \cup mSer
 AllIdx == dIdx \cup iIdx \cup mIdx
-IndexWrite(n) == IF n \in AllSer THEN UNCHANGED <<mSer, mIdx>>
-                 ELSE mSer' = mSer \cup {n} /\ mIdx' = mIdx \cup {n}
+IndexWrite(k) == IF k \in AllSer THEN UNCHANGED <<mSer, mIdx>>
+                 ELSE mSer' = mSer \cup {k} /\ mIdx' = mIdx \cup {k}
+IdUsed(n) == IF n \in DOMAIN AllDict THEN AllDict[n] ELSE mCounter
 
 Init ==
   /\ wal = << >> /\ gAck = -1 /\ qAck = -1 /\ dDict = Empty /\ dCounter = 0 /\ dFiles = {} /\ dSeq = -1
   /\ up = TRUE /\ gCons = -1 /\ fSeq = -1
   /\ mDict = Empty /\ mCounter = 0 /\ mem = {} /\ imm = {} /\ immSeq = -1 /\ gen = 0 /\ ifl = NoIfl /\ pendAck = FALSE
-  /\ dSer = {} /\ dIdx = {} /\ mSer = {} /\ mIdx = {} /\ iSer = {} /\ iIdx = {} /\ idxPhase = "idle"
+  /\ dSer = {} /\ dIdx = {} /\ mSer = {} /\ mIdx = {} /\ iSer = {} /\ iIdx = {} /\ idxPhase = "idle" /\ badIdx = {}
 
 AppendEntry(n) ==
   /\ up
@@ -96,9 +99,9 @@ ReplicaStep ==
                          /\ mCounter' = mCounter + 1
                          /\ mem' = mem \cup {[id |-> mCounter, seq |-> s]}
                /\ fSeq' = s
-               /\ IndexWrite(n)
+               /\ IndexWrite(IdUsed(n))
           ELSE UNCHANGED <<mem, mDict, mCounter, fSeq, mSer, mIdx>>       \* ValidateSequence rejects: already persisted
-  /\ UNCHANGED <<wal, gAck, qAck, dDict, dCounter, dFiles, dSeq, up, imm, immSeq, gen, ifl, pendAck, dSer, dIdx, iSer, iIdx, idxPhase>>
+  /\ UNCHANGED <<wal, gAck, qAck, dDict, dCounter, dFiles, dSeq, up, imm, immSeq, gen, ifl, pendAck, dSer, dIdx, iSer, iIdx, idxPhase, badIdx>>
 
 \* The same round in the three steps of localReplicator.Replica, so that the flush job can fall between
 \* them (the replicator and the flush checker are different goroutines; no lock spans the round):
@@ -124,8 +127,8 @@ RWrite ==
                    /\ mCounter' = mCounter + 1
                    /\ mem' = mem \cup {[id |-> mCounter, seq |-> s]}
        ELSE UNCHANGED <<mem, mDict, mCounter>>
-  /\ IF ifl.ok THEN IndexWrite(wal[ifl.seq + 1]) ELSE UNCHANGED <<mSer, mIdx>>
-  /\ UNCHANGED <<wal, gAck, qAck, dDict, dCounter, dFiles, dSeq, up, gCons, fSeq, imm, immSeq, gen, pendAck, dSer, dIdx, iSer, iIdx, idxPhase>>
+  /\ IF ifl.ok THEN IndexWrite(IdUsed(wal[ifl.seq + 1])) ELSE UNCHANGED <<mSer, mIdx>>
+  /\ UNCHANGED <<wal, gAck, qAck, dDict, dCounter, dFiles, dSeq, up, gCons, fSeq, imm, immSeq, gen, pendAck, dSer, dIdx, iSer, iIdx, idxPhase, badIdx>>
 
 RCommit ==
   /\ up /\ ifl.st = "written"
@@ -138,10 +141,15 @@ Freeze == imm' = mem /\ mem' = {} /\ immSeq' = fSeq
 \* Database.FlushMeta (counter sync + dictionary commits; atomic per C01/C09)
 MetaFlush ==
   /\ up /\ ~pendAck      \* the flush job runs its stages one after the other
+  /\ (FreezeBeforeMetaFlush => (idxPhase = "idle" /\ imm = {}))   \* ... and, in the repaired order, one job at a time
   /\ dCounter' = mCounter
   /\ dDict' = Merge(dDict, mDict) /\ mDict' = Empty
   /\ IF FreezeBeforeMetaFlush /\ imm = {} THEN Freeze ELSE UNCHANGED <<imm, mem, immSeq>>
-  /\ UNCHANGED <<wal, gAck, qAck, dFiles, dSeq, up, gCons, fSeq, mCounter, gen, ifl, pendAck, ixvars>>
+  \* (the order that closes the gap takes the prepare-flush of the shard index at the same point)
+  /\ IF FreezeBeforeMetaFlush /\ idxPhase = "idle"
+       THEN iSer' = mSer /\ iIdx' = mIdx /\ mSer' = {} /\ mIdx' = {} /\ idxPhase' = "prepared"
+       ELSE UNCHANGED <<mSer, mIdx, iSer, iIdx, idxPhase>>
+  /\ UNCHANGED <<wal, gAck, qAck, dFiles, dSeq, up, gCons, fSeq, mCounter, gen, ifl, pendAck, dSer, dIdx, badIdx>>
 
 \* DataFamily.Flush, first half: the mutable memory database becomes immutable and the replica
 \* sequence is captured (writes arriving later go to a new memory database)
@@ -152,7 +160,7 @@ FamilyFreeze ==
 
 \* ... second half: table written, file + captured sequence committed in ONE manifest record
 FamilyCommit ==
-  /\ up /\ ~pendAck /\ imm # {}
+  /\ up /\ ~pendAck /\ imm # {} /\ idxPhase = "idle"      \* the flush job: metadata, index, then the data
   /\ dFiles' = dFiles \cup {[id |-> b.id, seq |-> b.seq, gen |-> gen] : b \in imm}
   /\ dSeq' = IF immSeq > dSeq THEN immSeq ELSE dSeq
   /\ imm' = {}
@@ -161,7 +169,7 @@ FamilyCommit ==
 
 \* both halves in one step (what a sequential driver observes of one DataFamily.Flush call)
 FamilyFreezeAndCommit ==
-  /\ up /\ ~FreezeBeforeMetaFlush /\ imm = {} /\ mem # {} /\ ~pendAck
+  /\ up /\ ~FreezeBeforeMetaFlush /\ imm = {} /\ mem # {} /\ ~pendAck /\ idxPhase = "idle"
   /\ dFiles' = dFiles \cup {[id |-> b.id, seq |-> b.seq, gen |-> gen] : b \in mem}
   /\ dSeq' = IF fSeq > dSeq THEN fSeq ELSE dSeq
   /\ mem' = {} /\ immSeq' = fSeq
@@ -179,23 +187,23 @@ FamilyAck ==
 \* three index families first, the series family LAST (so that a series is durable only with its index entries)
 base == <<wal, gAck, qAck, dDict, dCounter, dFiles, dSeq, up, gCons, fSeq, mDict, mCounter, mem, imm, immSeq, gen, ifl, pendAck>>
 IdxPrepare ==
-  /\ up /\ idxPhase = "idle"
+  /\ up /\ idxPhase = "idle" /\ ~FreezeBeforeMetaFlush
   /\ iSer' = mSer /\ iIdx' = mIdx /\ mSer' = {} /\ mIdx' = {} /\ idxPhase' = "prepared"
-  /\ UNCHANGED <<base, dSer, dIdx>>
+  /\ UNCHANGED <<base, dSer, dIdx, badIdx>>
 CommitIdxPart == dIdx' = dIdx \cup iIdx /\ iIdx' = {} /\ UNCHANGED <<dSer, iSer>>
 CommitSerPart == dSer' = dSer \cup iSer /\ iSer' = {} /\ UNCHANGED <<dIdx, iIdx>>
 IdxCommitA ==
   /\ up /\ idxPhase = "prepared" /\ idxPhase' = "half"
   /\ IF SeriesFirst THEN CommitSerPart ELSE CommitIdxPart
-  /\ UNCHANGED <<base, mSer, mIdx>>
+  /\ UNCHANGED <<base, mSer, mIdx, badIdx>>
 IdxCommitB ==
   /\ up /\ idxPhase = "half" /\ idxPhase' = "idle"
   /\ IF SeriesFirst THEN CommitIdxPart ELSE CommitSerPart
-  /\ UNCHANGED <<base, mSer, mIdx>>
+  /\ UNCHANGED <<base, mSer, mIdx, badIdx>>
 IdxCommitBoth ==      \* both parts in one step (a part with nothing to flush commits nothing and is not observed)
   /\ up /\ idxPhase = "prepared" /\ idxPhase' = "idle"
   /\ dIdx' = dIdx \cup iIdx /\ iIdx' = {} /\ dSer' = dSer \cup iSer /\ iSer' = {}
-  /\ UNCHANGED <<base, mSer, mIdx>>
+  /\ UNCHANGED <<base, mSer, mIdx, badIdx>>
 
 \* Partition.IsExpire: FanOutQueue.Sync (queue-wide position := smallest group position) + GC
 SyncGC ==
@@ -208,6 +216,9 @@ Crash ==
   /\ up /\ up' = FALSE
   /\ mDict' = Empty /\ mem' = {} /\ imm' = {} /\ pendAck' = FALSE /\ ifl' = NoIfl
   /\ mSer' = {} /\ mIdx' = {} /\ iSer' = {} /\ iIdx' = {} /\ idxPhase' = "idle"
+  \* index entries (they carry tag key ids of the schema) whose metric / schema entry is lost with the memory:
+  \* the replayed write finds the series and indexes nothing, its new tag key id is not the indexed one
+  /\ badIdx' = badIdx \cup {k \in dIdx : ~\E n \in DOMAIN dDict : dDict[n] = k}
   /\ UNCHANGED <<wal, gAck, qAck, dDict, dCounter, dFiles, dSeq, gCons, fSeq, mCounter, immSeq, gen, dSer, dIdx>>
 
 \* Beyond a process kill: the consumer group's meta page (positions are stored without a sync on
@@ -245,5 +256,10 @@ FlushedResolves == \A b \in dFiles : wal[b.seq + 1] \in DOMAIN dDict /\ dDict[wa
 \* a series is never known without its index entries (else a replayed write does not index it again and the
 \* data is unreachable by metric / tag)
 SeriesIndexed == AllSer \subseteq AllIdx
+\* durable index entries resolve through the durable dictionary (same durability gap as FlushedResolves, seen in the index)
+IndexedResolves == badIdx = {}
+\* data that is acknowledged to the log (never replayed) has durable index entries -- else a crash leaves it
+\* unreachable by metric / tag for good (the same gap: a write between the index prepare-flush and the family freeze)
+AckedDataIndexed == \A b \in dFiles : b.seq <= gAck => b.id \in dIdx
 NoIdReuse == \A b \in dFiles : \A n \in DOMAIN AllDict : AllDict[n] = b.id => n = wal[b.seq + 1]
 =============================================================================
